@@ -9,7 +9,7 @@ git -C /repo worktree add -q --detach "$wt" || exit 2
 cleanup() { git -C /repo worktree remove --force "$wt" >/dev/null 2>&1; rm -rf "$alt" 2>/dev/null; }
 alt="/verif/work/alt-$(python3 -c "import hashlib,sys;print(hashlib.sha256(sys.argv[1].encode()).hexdigest()[:10])" "$wt")"
 trap cleanup EXIT
-if ! git -C "$wt" apply "$patch"; then echo "TEETH $id $(basename "$patch"): PATCH DOES NOT APPLY"; exit 2; fi
+if ! git -C "$wt" apply "$patch" 2>/dev/null && ! git -C "$wt" apply -3 "$patch" >/dev/null 2>&1; then echo "TEETH $id $(basename "$patch"): PATCH DOES NOT APPLY"; exit 2; fi
 out=$(cd /verif && VERIF_REPO="$wt" ./vcheck run "$id" --tier "$tier" 2>&1)
 rc=$?
 echo "$out" | grep -E "^(C[0-9]+ tier|VIOLATION|HARNESS|KNOWN)" | head -${TEETH_LINES:-6}
